@@ -208,6 +208,59 @@ def run_programs(gw, rng, big=False):
     T.append(["big-and-tiny", all(b == (len(blob), hashlib.sha1(blob).hexdigest()) for b in map(tuple, bigs)), tinies == list(range(400))])
     ch.send(None)
     ch.waitclose(10)
+    # 9c. rsync to this gateway (the receiving side is shipped source too): first sync, an edit that keeps the size (the receiver answers
+    # with a checksum), a mode-only change, a deletion
+    import shutil
+    import tempfile
+
+    base = tempfile.mkdtemp(prefix="verif-rs-")
+    try:
+        src, dest = os.path.join(base, "src"), os.path.join(base, "dest")
+        os.makedirs(os.path.join(src, "d"))
+        for name, data in (("a.txt", b"hello"), ("d/b.bin", bytes(range(256)) * 3), ("d/c", b"")):
+            with open(os.path.join(src, name), "wb") as f:
+                f.write(data)
+        os.symlink("a.txt", os.path.join(src, "l"))
+
+        def snap(root):
+            out = []
+            for dp, dns, fns in os.walk(root):
+                for n in sorted(dns + fns):
+                    p = os.path.join(dp, n)
+                    st = os.lstat(p)
+                    rel = os.path.relpath(p, root)
+                    if os.path.islink(p):
+                        out.append([rel, "link", os.readlink(p)])
+                    elif os.path.isdir(p):
+                        out.append([rel, "dir"])
+                    else:
+                        out.append([rel, "file", digest(open(p, "rb").read()), st.st_mode & 0o777, int(st.st_mtime)])
+            return sorted(out)
+
+        def sync(step):
+            try:
+                r = execnet.RSync(src, verbose=False)
+                r.add_target(gw, dest, delete=True)
+                r.send()
+                T.append(["rsync-" + step, "target equals source" if snap(dest) == snap(src) else "target differs"])
+            except Exception as e:  # noqa: BLE001
+                T.append(["rsync-" + step, type(e).__name__])
+
+        sync("first")
+        with open(os.path.join(src, "a.txt"), "wb") as f:
+            f.write(b"HELLO")
+        t = int(os.lstat(os.path.join(src, "a.txt")).st_mtime) + 100
+        os.utime(os.path.join(src, "a.txt"), (t, t))
+        sync("same-size-edit")
+        t = int(os.lstat(os.path.join(src, "d/b.bin")).st_mtime) + 50
+        os.utime(os.path.join(src, "d/b.bin"), (t, t))
+        sync("touched-only")
+        os.chmod(os.path.join(src, "d/b.bin"), 0o600)
+        sync("mode-only")
+        os.remove(os.path.join(src, "d/c"))
+        sync("deletion")
+    finally:
+        shutil.rmtree(base, ignore_errors=True)
     # 10. items still in flight when the gateway is told to exit are delivered (the remote code keeps running for a moment)
     ch = gw.remote_exec("import time\nchannel.send('before')\nchannel.receive()\ntime.sleep(0.4)\nchannel.send('after-exit-1')\nchannel.send(b'q' * 200000)\nchannel.send('after-exit-2')")
     first = ch.receive(10)
